@@ -146,7 +146,9 @@ class C14(Prop):
                 names = rng.sample(pool, rng.randint(1, len(pool))) + ["Z"]
             o["cn"] = self.typed(names, binary)
             o["him"] = rng.choice([None, True, False])
-            k = rng.randrange(4)
+            k = rng.randrange(5)
+            if k == 4:
+                o["ch"] = []               # an empty list of mandatory names: as good as not given
             if k == 1:
                 o["ch"] = names[0] if rng.random() < 0.8 else pool[-1]
             elif k == 2:
@@ -174,7 +176,7 @@ class C14(Prop):
         # ---- exhaustive small scope: 2x2 table x option product ---------------------------
         tables = [(["A", "B"], [["1", "2"], ["3", "4"]]), ([], [["1", "2"], ["3", "4"]]), (["A", "B"], [["x,y", ""], [], ["z"]])]
         cns = [None, ["A", "B"], ["B", "A"], ["B"], ["A", "Z"], ["A", "A"]]
-        chs = [None, True, False, "A", "B", ["A"], ["Z"], ["B", "B"]]
+        chs = [None, True, False, "A", "B", ["A"], ["Z"], ["B", "B"], []]
         prod = list(itertools.product(range(len(tables)), cns, chs, [None, True, False], ["t", "b"], ["\n", "\r\n"], [False, True]))
         if quick:
             prod = rng.sample(prod, 600)
